@@ -606,4 +606,28 @@ theorem drain_filter_call_closure_panic_safe {R : Nat} (hR : 0 < R) (m : Map) (p
         have : absOf m k = none := (absOf_none_iff m k).2 (fun hin => hk ((hcov k).2 hin))
         rw [this]; split <;> rfl
 
+/-- **A panicking `or_insert_with*` / `and_modify` closure changes nothing.**  The closure of an inserting entry
+    call is reached exactly when the key is absent, that of a modifying call exactly when it is present; the map
+    afterwards is the map before (so `Inv`, contents, both tables, the cursor), and the only object the unwinding
+    drops is the key handed to `entry` — no element is lost, which is stronger than the "at most the element handed
+    to the closure" C07 allows. -/
+theorem entry_call_closure_panic_safe {R : Nat} (m : Map) (k kid : Nat) (raw inserting : Bool) (h : Inv R m) :
+    let r := Map.entryFused m k kid raw inserting
+    r.1 = m ∧ Inv R r.1 ∧
+    (r.2.2 = true ↔ (if inserting then absOf m k = none else (absOf m k).isSome)) ∧
+    (∀ k', absOf r.1 k' = absOf m k') ∧
+    (idsOf r.1.ents ++ r.2.1.cost.dropped).Perm (idsOf m.ents ++ (if raw then [] else [kid])) := by
+  have habs := find_eq_abs h k
+  refine ⟨rfl, h, ?_, fun _ => rfl, List.Perm.refl _⟩
+  simp only [Map.entryFused]
+  cases hf : m.find k with
+  | none =>
+    rw [hf] at habs
+    simp only [Option.map_none] at habs
+    cases inserting <;> simp [← habs]
+  | some p =>
+    rw [hf] at habs
+    simp only [Option.map_some] at habs
+    cases inserting <;> simp [← habs]
+
 end Griddle.C07
